@@ -329,7 +329,7 @@ def check_growth(eng, res, G: Growth):
         L = set()
         for c, pol in e_conds:
             L |= lits(flow.expand_ssa(c, cfg.node_of(c)), pol)
-        ok = len(L) == 1 and all(l[0] == "num" and l[2] == "==" and l[3] == 0 and "bond_descriptors" in l[1] and "len" in l[1] and l[1].startswith("1*") for l in L)
+        ok = len(L) == 1 and all(l[0] not in ("num", "complex", "opaque", "const") and l[0][0] == "truthy" and l[1] is False and l[0][1].endswith("'bond_descriptors')") for l in L)
         res.ob("R-STOP-TEST", fi, f"other-exit:{e_kind}", "the only other exit is 'no open descriptor left'", e_node, ok, f"exit under {txts}")
 
 
